@@ -225,6 +225,77 @@ def layout_part(rep):
     rep.functions += describe(c03.G['fns']['plain'], ['export_to_string', 'generate_decl', 'generate_imports'])
 
 
+def literals_part(rep, quick):
+    """Tier B: string literals the derive builds from names (variant names under every tagging, with the name a symbolic string):
+    each must be a closed literal that decodes to the name. The derive interpolates them unescaped -> known finding F15."""
+    from . import tyres
+    from mirsym.interp import Hole
+    tyres.setup()
+    TG = tyres.G
+    ob = di = 0
+    for item, n in [(it, k) for it in ('R4', 'R2', 'R3') for k in ((1, 2) if quick else (1, 2, 3))]:
+        ex = Explorer()
+        A = [z3.BitVec(f'a{i}', CH) for i in range(n)]
+        B = o('Bee')
+        for c in A:
+            ex.solver.add(z3.Or([c == ord(x) for x in 'aA "\\\n-']))
+
+        def h(ctx):
+            r = tyres.Resolver(['T'], sym={'sym_a': A, 'sym_b': B})
+            m = tyres.machine(ctx, r)
+            try:
+                return ('ok', list(m.call(f'<{item}<T> as TS>::inline', []).cs))
+            except Panic as e:
+                return ('panic', str(e))
+        try:
+            res = ex.run(h)
+        except Unsupported as e:
+            rep.inconclusive.append(f'literals {item}: {e}')
+            continue
+        rep.absorb(dict(paths=ex.paths, nontrivial=ex.nontrivial, queries=ex.queries, solver_s=ex.solver_s))
+        for pc, (k, rope) in res:
+            ob += 1
+            if k == 'panic':
+                rep.violations.append({'what': f'{item}::inline panics: {rope}', 'witness': {}, 'key': f'lit/{item}/panic'})
+                continue
+            # the symbolic name sits between two double quotes: locate it by identity of the solver variables
+            idx = [i for i, c in enumerate(rope) if is_sym(c) and any(c.eq(a) for a in A)]
+            if len(idx) != n or idx != list(range(idx[0], idx[0] + n)) or rope[idx[0] - 1] != 34 or rope[idx[-1] + 1] != 34:
+                rep.inconclusive.append(f'literals {item}: could not locate the name literal in {tyres.show_rope(rope)!r}')
+                continue
+            body = rope[idx[0]:idx[-1] + 1]
+            bad = z3.Not(decodes(body, A))
+            if ex.check(pc + [bad]) == z3.sat:
+                mdl = ex.model()
+                rep.known_hits.setdefault('F15-derive-literals-unescaped', {'kind': 'variant', 'item': TG['corpus'][item]['src'], 'name': show(A, mdl),
+                                                                           'engine_result': show([c for c in rope if not isinstance(c, Hole)], mdl)})
+            else:
+                di += 1
+    rep.absorb(dict(obligations=ob, discharged=di))
+    rep.part('derive-built string literals (tier B corpus R2/R3/R4)', obligations=ob)
+
+
+def native_variant_literal(name):
+    """inline() of `enum E { #[ts(rename = <name>)] A, B }` through the real derive, natively"""
+    import tempfile, shutil
+    scratch = tempfile.mkdtemp(prefix='tsrs-verif-c04-')
+    try:
+        os.makedirs(os.path.join(scratch, 'src'))
+        shutil.copy(os.path.join(REPO, 'Cargo.lock'), os.path.join(scratch, 'Cargo.lock'))
+        with open(os.path.join(scratch, 'Cargo.toml'), 'w') as fh:
+            fh.write(f'[package]\nname = "c04probe"\nversion = "0.0.0"\nedition = "2021"\n[workspace]\n[dependencies]\n'
+                     f'ts-rs = {{ path = "{os.path.join(REPO, "ts-rs")}" }}\n')
+        lit = '"' + name.replace('\\', '\\\\').replace('"', '\\"').replace('\n', '\\n') + '"'
+        with open(os.path.join(scratch, 'src', 'main.rs'), 'w') as fh:
+            fh.write('use ts_rs::TS;\n#[derive(TS)] enum E { #[ts(rename = %s)] A, B }\nfn main() { println!("{}", E::inline().replace(\'\\n\', "\\\\n")); }\n' % lit)
+        p = build.run(['cargo', 'run', '--offline', '-q', '--target-dir', os.path.join(build.CACHE, 'target-c04probe')], cwd=scratch)
+        if p.returncode != 0:
+            return None
+        return p.stdout.rstrip('\n').replace('\\n', '\n')
+    finally:
+        shutil.rmtree(scratch, ignore_errors=True)
+
+
 def validate(rep, count):
     rnd = random.Random(SEED)
     cases = ['', 'a', 'a-b', 'x"y', 'a\\b', 'a\nb', '0a', '$x', '_', 'a b', 'é', '中', 'x²', '"', '\\', 'a/b', 'type', 'A1_$']
@@ -266,6 +337,10 @@ def main():
             part(rep)
         except Unsupported as e:
             rep.inconclusive.append(f'{part.__name__}: {e}')
+    try:
+        literals_part(rep, quick)
+    except Unsupported as e:
+        rep.inconclusive.append(f'literals_part: {e}')
     NA, NU = (4, 3) if quick else (6, 4)
     items = [(n, False) for n in range(0, NA + 1)] + [(n, True) for n in range(1, NU + 1)]
     results = par.pmap(explore_rawname, items)
@@ -278,7 +353,7 @@ def main():
     rep.bounds = {'names_ascii': f'length 0..{NA} over {ALPHA!r}', 'names_with_non_ascii': f'length 1..{NU} over the same + sample {[hex(c) for c in U.TABLE]}',
                   'layout': 'T with/without DOCS, 0..2 imported dependencies, import-esm off/on; DOCS and decl() uninterpreted'}
     rep.outside += ['a full TypeScript grammar (reduced to lexical conditions)', 'the `format` feature (dprint)',
-                    'variant / tag / content string literals and the `type Name = ..;` text: built by the derive as token streams (tier B)',
+                    'tag / content string literals (same code path as variant names, which are covered) and the `type Name = ..;` text',
                     'names longer than the bound']
     rep.assumptions += ['ECMAScript ID_Start / ID_Continue are approximated by XID_Start / XID_Continue (Python unicodedata) on the sample']
     seen = {}
@@ -293,6 +368,16 @@ def main():
         else:
             rep.inconclusive.append(f'engine counterexample does not reproduce natively: {c}')
     for fid, w in list(rep.known_hits.items()):
+        if w.get('kind') == 'variant':
+            nat = native_variant_literal(w['name'])
+            w['native'] = nat
+            want = '"' + w['name'] + '" | "B"'
+            # reproduced when the literal as emitted does not decode to the name: here, when it is emitted verbatim although it
+            # contains a character that needs escaping
+            if not (nat is not None and nat == want and any(ch in w['name'] for ch in '"\\\n')):
+                del rep.known_hits[fid]
+                rep.inconclusive.append(f'witness of known finding {fid} does not reproduce natively: {w}')
+            continue
         nat = G['native'].one('rawname', w['name'])
         w['native'] = nat
         if not (nat[0] == 'ok' and not name_ok_concrete(nat[1], w['name'])):
